@@ -44,7 +44,7 @@ def _register():
                 mod.CustomObservable(t, [("value", P.StringProperty(required=True))])(type("RegObs", (object,), {}))
     # a registered toplevel-property-extension: its property t_rank becomes a top-level property of the carrier
     stix2.v21.CustomExtension(REG_TOPLEVEL, [("t_rank", P.IntegerProperty()),
-                                             ("t_ref", P.EmbeddedObjectProperty(type=stix2.v21.ExternalReference)),
+                                             ("t_extref", P.EmbeddedObjectProperty(type=stix2.v21.ExternalReference)),
                                              ("t_hashes", P.HashesProperty(["MD5", "SHA-256"], spec_version="2.1"))])(
         type("RegTopLevel", (object,), {"extension_type": "toplevel-property-extension"}))
     # a second one: what building an object with both leaves behind must not change what the first one declares
